@@ -14,8 +14,8 @@ _SO_dropJoinTable / _SO_createIndex / addColumn / delColumn` (translated from /r
   what the statement does to the catalogue, written from SQL's grammar: `CREATE TABLE <name> …` adds the table or
   fails when it exists, `DROP TABLE <name>[ …]` removes it with its indexes or fails when it is missing,
   `CREATE [UNIQUE] INDEX <table>_<name> ON <table> …` adds the index `(table, name)` or fails when it exists, every
-  other statement — `ALTER TABLE … ADD CONSTRAINT`, generators, sequences, `VACUUM`, `INSERT … SELECT`, MySQL's
-  `ALTER TABLE … ADD INDEX` — leaves the catalogue as it is); a refused statement raises (`operationalError`) and leaves
+  `ALTER TABLE <table> ADD INDEX|UNIQUE <name> …` (MySQL) likewise, every other statement — `ALTER TABLE … ADD
+  CONSTRAINT`, generators, sequences, `VACUUM`, `INSERT … SELECT` — leaves the catalogue as it is); a refused statement raises (`operationalError`) and leaves
   the catalogue unchanged.  Names are the text up to the next blank.
 * `conn.tableExists(t)` / `cls.tableExists(connection=conn)` read the catalogue (`t ∈ tables`).
 * `sqlmeta.send(signal, …)` has no listeners: no effect, `extra_sql` / `post_funcs` stay empty.
@@ -45,6 +45,23 @@ def execIndex (r : Str) (c : Cat) : Except Unit Cat :=
   let nm := full.drop (tbl.length + 1)
   if (tbl, nm) ∈ c.indexes then .error () else .ok { c with indexes := c.indexes ++ [(tbl, nm)] }
 
+def pAT : Str := [65, 76, 84, 69, 82, 32, 84, 65, 66, 76, 69, 32]              -- "ALTER TABLE "
+def pAI : Str := [32, 65, 68, 68, 32, 73, 78, 68, 69, 88, 32]                    -- " ADD INDEX "
+def pAU : Str := [32, 65, 68, 68, 32, 85, 78, 73, 81, 85, 69, 32]                -- " ADD UNIQUE "
+
+def addIndex (tbl nm : Str) (c : Cat) : Except Unit Cat :=
+  if (tbl, nm) ∈ c.indexes then .error () else .ok { c with indexes := c.indexes ++ [(tbl, nm)] }
+
+/-- MySQL: `ALTER TABLE <table> ADD INDEX|UNIQUE <name> (…)`, `r` = the text after `ALTER TABLE `; every other
+    `ALTER TABLE` statement leaves the catalogue alone -/
+def execAlter (r : Str) (c : Cat) : Except Unit Cat :=
+  match strip pAI (r.drop (word r).length) with
+  | some r2 => addIndex (word r) (word r2) c
+  | none =>
+    match strip pAU (r.drop (word r).length) with
+    | some r2 => addIndex (word r) (word r2) c
+    | none => .ok c
+
 /-- what a statement does to the catalogue -/
 def execSQL (s : Str) (c : Cat) : Except Unit Cat :=
   match strip pCT s with
@@ -58,7 +75,10 @@ def execSQL (s : Str) (c : Cat) : Except Unit Cat :=
       | none =>
         match strip pCI s with
         | some r => execIndex r c
-        | none => .ok c
+        | none =>
+          match strip pAT s with
+          | some r => execAlter r c
+          | none => .ok c
 
 /-! ### the interface -/
 
@@ -111,7 +131,6 @@ def logEff (log : List Str) (_r : Val) (m : String) (as : List Val) : Option (R 
 
 def ELog : Eff (List Str) := { effMeths := effMeths, eff := logEff, read := fun _ _ _ _ => none }
 
-def pAT : Str := [65, 76, 84, 69, 82, 32, 84, 65, 66, 76, 69, 32]              -- "ALTER TABLE "
 def pRT : Str := [32, 82, 69, 78, 65, 77, 69, 32, 84, 79, 32]                    -- " RENAME TO "
 
 /-- `execSQL`, and `ALTER TABLE a RENAME TO b`: the table and (as in SQLite) its indexes go by the new name -/
